@@ -41,8 +41,8 @@ def user_variants(p):
     from smc.variants import Variant
 
     return [
-        Variant("User/opt", lambda: RowFuncCost(), None, 1, optimal=True, family="User"),
-        Variant("User/fixed", lambda: RowFuncCost(param=1.0), None, 1, family="User"),
+        Variant("User/opt", lambda: RowFuncCost(weight=2.5), None, 1, optimal=True, family="User"),
+        Variant("User/fixed", lambda: RowFuncCost(param=1.0, weight=2.5), None, 1, family="User"),
     ]
 
 
@@ -186,7 +186,8 @@ def one_variant(acc, case, key, V, Xf, rows, n, p):
         sv = Saving(V.make()).fit(Xf)
         if sv.min_size != ms:
             acc.violation("adapter-min-size", case, f"Saving.min_size {sv.min_size} != cost min_size {ms}", key)
-        optc = type(cost)().fit(Xf)
+        # optimal-parameter reference built by a constructor with the SAME remaining hyper-parameters
+        optc = (RowFuncCost(weight=2.5) if V.family == "User" else type(cost)()).fit(Xf)
         otab = cost_table(optc, n, ms, w)
         ivs = [iv for iv in tab if tab[iv] is not None and otab.get(iv) is not None]
         if ivs:
